@@ -3,12 +3,17 @@ from .rules import kernel, incr, rot, sched, meas, integrator, kal, purity, diff
 
 PROPS = {
     'C01': dict(
-        rules=[kernel.sib_grav, kernel.ker_consist, kernel.ker_skew, kernel.row_rec],
+        rules=[kernel.row_rec, kernel.sib_grav, kernel.ker_consist, kernel.ker_skew,
+               incr.cs_rules, incr.cs_exact, rot.rot_series, rot.rot_exp],
         decided=['compiled gravity copy equals earth.gravity',
                  'one-step map first-order consistent with the navigation equations built '
                  'from earth.* / perturb_lla / skew_matrix (necessary for convergence)',
                  'cross-product structure of the Coriolis and rotation-compensation terms',
-                 'recurrence shape (row j -> row j+1, each increment once)'],
+                 'recurrence shape (row j -> row j+1, each increment once)',
+                 'increments: branch agreement, first-order consistency and exactness through the '
+                 'cubic term on linear signals (C15 rules)',
+                 'rotation-vector routine is the exponential map, continuous across its branch '
+                 '(C17 rules)'],
         undecided=['convergence and its order', 'second-order terms of the step',
                    'global discretisation error']),
     'C15': dict(
@@ -22,16 +27,18 @@ PROPS = {
                  'the first-order-rotation velocity integral (derived by polynomial integration)'],
         undecided=['order of accuracy on general (sinusoidal) signals (a limit statement)']),
     'C17': dict(
-        rules=[rot.rot_series, rot.rot_exp, rot.euler_conv],
+        rules=[rot.rot_series, rot.rot_exp, rot.euler_conv, errmodel.es_first],
         decided=['small-angle arm is the Maclaurin truncation of the closed form and continuous '
                  'across the branch to 2^-53',
                  'rotation-vector routine is the exponential map (Rodrigues coefficients as '
                  'series, sign pattern of util.skew_matrix)',
                  "every roll/pitch/heading conversion uses the same extrinsic 'xyz' degree "
-                 'convention'],
+                 'convention',
+                 'the attitude-error-to-Euler-error matrix is the derivative of roll/pitch/heading '
+                 'with respect to the small rotation applied by a correction (symbolic, rotation '
+                 'model of scipy from_euler)'],
         undecided=['sign conventions inside scipy Rotation (trusted library)',
-                   'numerical round trip of Euler angles',
-                   'entries of the Euler-angle Jacobian _phi_to_delta_rph beyond units']),
+                   'numerical round trip of Euler angles']),
     'C09': dict(
         rules=[lambda c: sched.def_path(c, (sched.FB,)),
                lambda c: sched.sched_epochs(c, (sched.FB,)),
@@ -224,5 +231,13 @@ def run(ctx):
         'numpy/scipy/pandas API semantics as tabulated in DESIGN.md appendix A',
         'util.mm_prod/mv_prod/skew_matrix semantics are read from their source on each run',
     ]
+    from .model import AnalysisError
     for r in spec['rules']:
-        r(ctx)
+        try:
+            r(ctx)
+        except AnalysisError as e:
+            if not ctx.findings:
+                raise
+            # violations were already found: they take precedence over a rule that cannot
+            # analyse the (broken) code
+            ctx.info('ANALYSIS', 'rule skipped after findings: %s' % e)
